@@ -295,6 +295,102 @@ fn check_stream(rt: &tokio::runtime::Runtime, srv: &Srv, load: bool, names: &[&s
     true
 }
 
+/// Structurally malformed filters (a required operand is missing). `Flt::Not(None)` is a
+/// NotFilter without operand.
+fn malformed_filters() -> Vec<(&'static str, Flt)> {
+    let not_none = || Flt::Not(Box::new(Flt::None));
+    vec![
+        ("not-without-operand", not_none()),
+        ("and[exact,not-without-operand]", Flt::And(vec![Flt::Exact("a".into(), "1".into()), not_none()])),
+        ("or[not-without-operand]", Flt::Or(vec![not_none()])),
+        ("not(not(not-without-operand))", Flt::Not(Box::new(Flt::Not(Box::new(not_none()))))),
+        ("not(not-without-operand)", Flt::Not(Box::new(not_none()))),
+        ("hole", Flt::Hole),
+        ("and[hole]", Flt::And(vec![Flt::Hole])),
+        ("or[hole,exact]", Flt::Or(vec![Flt::Hole, Flt::Exact("a".into(), "1".into())])),
+        ("not(hole)", Flt::Not(Box::new(Flt::Hole))),
+        ("range-without-bound", Flt::RangeNoBound("a".into())),
+        ("not(range-without-bound)", Flt::Not(Box::new(Flt::RangeNoBound("a".into())))),
+        ("and[]", Flt::And(vec![])),
+        ("or[]", Flt::Or(vec![])),
+        ("not(or[])", Flt::Not(Box::new(Flt::Or(vec![])))),
+    ]
+}
+
+/// BatchDelete{filter} with a bare malformed filter on a populated persistent server: the request
+/// is answered; if it is refused nothing changes; if it is accepted it removes ONLY documents that
+/// the engine's own reference matcher (metadata_filter::matches) selects for that filter — a
+/// malformed filter must not widen into "everything in scope"; and the collection after a restart
+/// equals the live one.
+fn check_malformed_delete(rt: &tokio::runtime::Runtime, dir: &std::path::Path, name: &str, flt: &Flt, metric: &str, st: &mut Stats) {
+    let _ = std::fs::remove_dir_all(dir);
+    let srv = build(&cfg(Some(dir.to_string_lossy().to_string()), metric));
+    for (id, v, meta) in [(1u64, [1.0f32, 0.0, 0.0], 0u8), (2, [0.0, 1.0, 0.0], 0), (3, [0.0, 0.0, 1.0], 1), (4, [0.6, 0.8, 0.0], 0)] {
+        let _ = rt.block_on(call(&srv, &Rpc::Insert { t: 0, item: item(id, &v, "", meta) }));
+    }
+    // documents 1,2 only in the cold tier, 3,4 still mirrored in the recent-write tier
+    if name.len() % 2 == 0 {
+        let _ = rt.block_on(call(&srv, &Rpc::Flush { t: 0 }));
+    }
+    st.requests += 1;
+    let before = census(&srv);
+    let rpc = Rpc::BatchDeleteFilter { t: 0, flt: flt.clone(), ns: "".into() };
+    let ctx = |detail: String| json!({"engine":"srvmc","check":"C15","request":format!("BatchDelete bare malformed filter={name}"),"metric":metric,"detail":detail});
+    let resp = match std::panic::catch_unwind(std::panic::AssertUnwindSafe(|| rt.block_on(async { tokio::time::timeout(std::time::Duration::from_secs(30), call(&srv, &rpc)).await }))) {
+        Err(_) => json!({"status": "Internal(panic contained by the tower layer)"}),
+        Ok(Err(_)) => {
+            st.viol.push(("C15|BatchDelete|no-answer-within-horizon".into(), ctx("request did not complete within 30 s".into())));
+            return;
+        }
+        Ok(Ok(v)) => v,
+    };
+    let after = census(&srv);
+    let refused = is_refusal(&resp);
+    st.outcomes.insert(format!("BatchDelete-malformed[{name}]:{}", if refused { "refused" } else { "ok" }));
+    if refused {
+        st.refused += 1;
+        if after != before {
+            st.viol.push(("C15|BatchDelete|refused-but-collection-changed".into(), ctx(format!("response {resp}"))));
+            return;
+        }
+    } else {
+        st.accepted += 1;
+        let proto = flt_to_proto(flt).expect("filter");
+        for (gid, (_, meta)) in &before {
+            if after.contains_key(gid) {
+                continue;
+            }
+            let m: std::collections::HashMap<String, String> = meta.iter().cloned().collect();
+            if !kyrodb_engine::metadata_filter::matches(&proto, &m) {
+                st.viol.push((
+                    "C15|BatchDelete|malformed-filter-removed-documents-it-does-not-select".into(),
+                    ctx(format!("filter {name}: document {} (metadata {:?}) was deleted although the reference matcher does not select it; response {resp}; {} of {} documents removed", gid & 0xffff_ffff, meta, before.len() - after.len(), before.len())),
+                ));
+                return;
+            }
+        }
+        if after.keys().any(|k| !before.contains_key(k)) {
+            st.viol.push(("C15|BatchDelete|delete-added-documents".into(), ctx(format!("response {resp}"))));
+            return;
+        }
+    }
+    let c = rt.block_on(call(&srv, &Rpc::Insert { t: 0, item: item(777, &[0.0, 0.6, 0.8], "", 0) }));
+    if is_refusal(&c) {
+        st.viol.push(("C15|BatchDelete|server-stops-serving-valid-requests".into(), ctx(format!("after the request a valid insert is answered {c}"))));
+        return;
+    }
+    let live = census(&srv);
+    st.restarts += 1;
+    match restart(srv) {
+        Err(e) => st.viol.push(("C15|restart-fails-after-requests".into(), ctx(e))),
+        Ok(s2) => {
+            if census(&s2) != live {
+                st.viol.push(("C15|collection-after-restart-differs".into(), ctx("census after restart differs".into())));
+            }
+        }
+    }
+}
+
 pub fn worker(wi: usize, wn: usize, tier: &str) {
     let rt = tokio::runtime::Builder::new_multi_thread().worker_threads(1).max_blocking_threads(4).enable_all().build().unwrap();
     let scratch = vcore::Scratch::new(&format!("c15w{wi}"));
@@ -338,6 +434,13 @@ pub fn worker(wi: usize, wn: usize, tier: &str) {
                 }
             }
             let _ = std::fs::remove_dir_all(&dir);
+        }
+        // --- bare malformed filters on BatchDelete
+        for (mi, (name, flt)) in malformed_filters().iter().enumerate() {
+            if (mi + idx) % wn != wi {
+                continue;
+            }
+            check_malformed_delete(&rt, &scratch.path.join("mf"), name, flt, metric, &mut st);
         }
         // --- streams of length <= 3 (BulkInsert and BulkLoadHnsw)
         let maxlen = 3usize;
@@ -491,7 +594,7 @@ pub fn run(tier: &str, replay: Option<&str>) -> i32 {
     }
     ev.set("evaluations", tot["requests"] + tot["tower"] + tot["malformed"]);
     ev.set("distinct_nontrivial", tot["refused"]);
-    ev.set("rule", "per RPC the cross product of per-field boundary lists (vector: valid/empty/dim-1/dim+1/4097/zero/NaN/+-Inf/1e30/f32::MAX/subnormal; id: 0,1,2^32-1,2^32,2^64-1; k: 0,1,1000,1001,2^32-1; ef: 0,1,10000,10001; filters: empty forms, 200/201-deep NOT, 10^4-value IN, NaN range, reserved key; namespace: empty/5000 chars; metadata: plain/reserved-key spoof/300 keys; batch sizes 0,1,10000,10001), singly on a persistent server with pre-existing documents, and every BulkInsert / BulkLoadHnsw stream of length <= 3 over 9 item classes (valid, duplicate, NaN, +Inf, 1e30, dim+1, id 0, id 2^32); oracle: an answer within the horizon, refused => canonical census unchanged, accepted => stored exactly as given, no non-finite vector ever stored, a following valid insert succeeds, census after restart equals the live one; every single request also goes through the tower stack (panic containment layer + generated server) as raw frames, plus truncated / mis-sized / corrupted frames on four paths: a grpc-status must come back. non-trivial = refused requests");
+    ev.set("rule", "per RPC the cross product of per-field boundary lists (vector: valid/empty/dim-1/dim+1/4097/zero/NaN/+-Inf/1e30/f32::MAX/subnormal; id: 0,1,2^32-1,2^32,2^64-1; k: 0,1,1000,1001,2^32-1; ef: 0,1,10000,10001; filters: empty forms, 200/201-deep NOT, 10^4-value IN, NaN range, reserved key; namespace: empty/5000 chars; metadata: plain/reserved-key spoof/300 keys; batch sizes 0,1,10000,10001), singly on a persistent server with pre-existing documents, and every BulkInsert / BulkLoadHnsw stream of length <= 3 over 9 item classes (valid, duplicate, NaN, +Inf, 1e30, dim+1, id 0, id 2^32); oracle: an answer within the horizon, refused => canonical census unchanged, accepted => stored exactly as given, no non-finite vector ever stored, a following valid insert succeeds, census after restart equals the live one; every single request also goes through the tower stack (panic containment layer + generated server) as raw frames, plus truncated / mis-sized / corrupted frames on four paths: a grpc-status must come back. non-trivial = refused requests; 14 structurally malformed filters (NotFilter without operand, filter without type, range without bound, empty AND/OR, singly and nested) sent BARE as BatchDelete{filter} to a populated persistent server: answered, refused => unchanged, accepted => only documents the reference matcher metadata_filter::matches selects are removed, census after restart == live");
     ev.set("samples", json!([single_requests()[7].0, single_requests()[200].0, {"stream": ["valid-a", "nan", "valid-b"]}]));
     ev.set("exhaustive", true);
     ev.set("requests_refused", tot["refused"]);
